@@ -22,17 +22,19 @@ from . import lockskel
 
 KINDS = ("mutex",)
 
-MUTEX_OPS = [("l", 5), ("lh", 2), ("tl", 3), ("al", 4), ("ap", 4), ("ad", 2)]
+MUTEX_OPS = [("l", 5), ("lh", 2), ("tl", 3), ("al", 4), ("ap", 4), ("ad", 2), ("yw", 2)]
 RW_OPS = [("r", 4), ("w", 4), ("rh", 1), ("wh", 2), ("tr", 2), ("tw", 2), ("ar", 3), ("aw", 3),
-          ("apr", 3), ("apw", 3), ("ad", 2)]
+          ("apr", 3), ("apw", 3), ("ad", 2), ("yw", 2)]
 
 # minimal interesting programs; they run first (and are the mutation witnesses of docs/C10.md)
 MUTEX_CORPUS = [
     ("m", "T: l | T: l"),
     ("b", "T: lh | T: l"),                       # sync waiter parks, unlock must wake it
     ("b", "T: lh | T: l | T: l"),
-    ("m", "T: lh | T: ap ad | T: al"),           # future cancelled after WOKEN must forward the wake
-    ("b", "T: lh | T: ap ad | T: l"),
+    ("m", "T: lh | T: ap ad | T: al"),           # future cancelled before being woken
+    ("m", "T: lh | T: ap yw ad | T: al"),        # future cancelled after WOKEN must forward the wake
+    ("m", "T: lh | T: ap yw ad | T: l"),
+    ("m", "T: l | T: ap yw ad | T: ap yw ad | T: al"),
     ("m", "T: lh | T: al | T: al"),
     ("m", "T: l | T: tl tl | T: l"),
     ("m", "T: tl | T: tl tl | T: lh"),
@@ -45,8 +47,9 @@ RW_CORPUS = [
     ("m", "T: r | T: r | T: w"),
     ("b", "T: wh | T: r | T: w"),
     ("b", "T: rh | T: w | T: r r"),              # queued writer gates new readers
-    ("m", "T: rh | T: apw ad | T: ar"),
-    ("m", "T: wh | T: apr ad | T: aw"),
+    ("m", "T: rh | T: apw yw ad | T: ar"),
+    ("m", "T: wh | T: apr yw ad | T: aw"),
+    ("m", "T: w | T: apw yw ad | T: w | T: ar"),
     ("m", "T: wh | T: ar | T: ar | T: aw"),
     ("m", "T: tr tw | T: tw tr | T: wh"),
     ("b", "T: wh r | T: w rh | T: r w"),
